@@ -277,7 +277,7 @@ func c12RunX(o *common.Out, id string, kind string, ops []c12op) {
 				xc = client.NewXClient("p", client.Failfast, mode, d, opt)
 				defer xc.Close()
 			} else {
-				d.Update(pairsOf(op.servers))
+				publish(d, pairsOf(op.servers), true)
 			}
 			// the watch loop applies the update asynchronously: wait until the client's server set is the published one
 			deadline := time.Now().Add(3 * time.Second)
